@@ -311,19 +311,35 @@ func runC04(c *kit.Ctx) {
 			if !ok {
 				return
 			}
-			for _, st := range sel.States {
+			for k, st := range sel.States {
 				call, ok := st.Chan.(*ssa.Call)
 				if !ok {
 					continue
 				}
 				if recv, isRC := p.IsMethodOn(call, "hrpc", "Call", "ResultChan"); isRC && rcW != nil {
 					n++
-					// a handleResultError call for this recv dominated by this select
+					// a handleResultError call for this recv dominated by this select - and not inside another
+					// arm of it (a second receive nested in the <-Done() arm has its own call; that call says
+					// nothing about what this arm does with the error it received)
+					inOtherArm := func(h ssa.Instruction) bool {
+						for _, f := range kit.FactsAt(h.Block()) {
+							bo, ok := f.Cond.(*ssa.BinOp)
+							if !ok || bo.Op != token.EQL || !f.Pol {
+								continue
+							}
+							if ex, ok := bo.X.(*ssa.Extract); ok && ex.Index == 0 && ex.Tuple == ssa.Value(sel) {
+								if j, ok := kit.ConstInt(bo.Y); ok && int(j) != k {
+									return true
+								}
+							}
+						}
+						return false
+					}
 					good := false
 					for _, h := range kit.Calls(wfc, hreName) {
 						a := h.Common().Args
 						reg, ok := kit.Strip(a[2]).(*ssa.Call)
-						if ok && kit.CalleeName(reg) == hrpcCall+"Region" && kit.Same(reg.Call.Value, recv) && kit.Same(a[3], rcW) && kit.Dominates(sel, h.(ssa.Instruction)) {
+						if ok && kit.CalleeName(reg) == hrpcCall+"Region" && kit.Same(reg.Call.Value, recv) && kit.Same(a[3], rcW) && kit.Dominates(sel, h.(ssa.Instruction)) && !inOtherArm(h.(ssa.Instruction)) {
 							good = true
 						}
 					}
